@@ -8,6 +8,11 @@ Two families of cases, both generated on an abstract syntax from which the real 
      IOBuffer, or a top-level input port. Observed: the exception kind of build_netlist / rtlil.convert
      (DriverConflict, the early SyntaxError of `Module`, or none). Compared with Model (`check`,
      `early`) and Spec (`Conflict`, `SameModuleConflict`, decided by `conflictB`, `sameModuleB`).
+(i') the same, with modules (and with them their subtrees) wrapped in ResetInserter / EnableInserter whose control
+     dicts name two or three clocked domains (sync, fast, slow): one fragment with statements in several controlled
+     domains, uncontrolled domains next to them, nested modules, stacked and nested inserters, reset-less signals,
+     DomainRenamer inside or outside the inserter. An inserter adds logic only to bits (and in the domain) its wrapped
+     statements already drive, so the Spec side is decided from the drives of the unwrapped design.
 (ii) cycles: statements over signal bits; each statement is bit-precise (slices, Cat, ~ & | ^, Mux,
      conditions) or word-level (+ - * == << >> part-select matches reductions ...). The abstract
      bit-dependency graph follows from the statements by the Spec's reading (a word-level operator
@@ -1671,6 +1676,12 @@ def run(chk):
         "(module, domain) pairs with several target forms (slice, nested slice, Cat, as_signed, bit_select, If, Switch), "
         "Instance / memory / IOBuffer / top-input drivers, Module-built or Fragment-built, optional DomainRenamer; "
         "35% bit-disjoint by construction (legal near-misses). distinct = the drive list; non-trivial = at least two drives. "
+        "control inserters (stream ctl): 1-4 modules, 1-4 signals (random init, 12% reset-less), one module with statements in "
+        "2-3 of the clocked domains sync/fast/slow (+ comb, + other (module, domain) pairs), 60% bit-disjoint by construction; "
+        "1-2 wrappers ResetInserter (65%) / EnableInserter with a control dict over 1-3 domains (mostly those of the busy "
+        "module, sometimes one it does not use) around the busy module, one of its ancestors or any module, stacked on one "
+        "module or nested; Module-built or Fragment-built; distinct = drive list + wrappers; coverage.distribution "
+        "conflict.ctl.* says how many controlled domains have statements in one fragment. "
         "cycles: up to 12 signal bits in 1-4 signals over 1-3 modules, one statement per target slice, bit-precise or "
         "word-level kind, optional condition, forward-only (acyclic by construction) or with 1-2 back edges or free; "
         "defaults: rings of 1-3 signals in which every member but the last is assigned unconditionally from a pure rearrangement "
@@ -1687,6 +1698,9 @@ def run(chk):
         "part-select assignment targets whose offset cannot reach every bit are left out of the conflict stream: "
         "Module._add_statement over-approximates them on purpose (comment in LHSMaskCollector.visit_value)",
         "driver conflicts on I/O ports ('used twice') and clock-domain signals are not generated",
+        "ResetInserter / EnableInserter add no driver to a bit the wrapped statements of that (module, domain) do not "
+        "drive (the reset covers LHSMaskCollector's bits of the domain's own statements; part-select targets in this "
+        "stream reach every bit of their slice), so the verdict of a wrapped design is that of the unwrapped drives",
         "a signal whose only driver is one synchronous (module, domain) pair is registered in all its bits, assigned or "
         "not (the widening in emit_drivers); this only matters when the domain's clock / asynchronous reset is itself "
         "driven by logic (20% of the random cycle cases); see coverage.boundary_notes",
